@@ -409,3 +409,31 @@ Definition check_map_rel (fixed : bool) (m n : nat) (A : list (list Q)) (b x0 : 
   | Val x => qcl_relclose tol8 (qvec w) x
   | _ => false
   end.
+
+(* ------------------------------------------------------------------------------------------------
+   the public entry points with their optional arguments
+   ------------------------------------------------------------------------------------------------ *)
+(* MAP(disp, x0): in the closed-form branch `x0 = self.prior.mean` REBINDS the name, the caller's initial guess is not read;
+   disp only prints *)
+Definition map_entry (fixed : bool) (m n : nat) (A : qm) (b prior_mean : qv) (x0arg : option qv) (disp : bool)
+           (ce cx : option covform) : outcome :=
+  map_direct fixed m n A b prior_mean ce cx.
+
+(* ML(disp, x0) has no closed-form branch: always _solve_max_point on the likelihood *)
+Definition ml_route (P : pinfo) (max_dim_inv : nat) : route := ROptimiser.
+
+(* observed: the entry point returned with info["solver"] = "direct" (label 0) / "L-BFGS-B" (label 1) / other (2),
+   and whether a cuqi.solver object was built and run *)
+Definition check_entry_route (is_ml : bool) (P : pinfo) (max_dim_inv : nat) (label : nat) (solver_ran : bool) : bool :=
+  match (if is_ml then ml_route P max_dim_inv else map_route P max_dim_inv) with
+  | RDirect => Nat.eqb label 0 && negb solver_ran
+  | ROptimiser => Nat.eqb label 1 && solver_ran
+  end.
+
+Definition check_map_entry (fixed : bool) (m n : nat) (A : list (list Q)) (b x0 : list Q) (x0arg : option (list Q)) (disp : bool)
+           (ge gx : gdesc) (w : obs) : bool :=
+  outcome_matches tol8 (map_entry fixed m n (qmat A) (qvec b) (qvec x0)
+                          (match x0arg with Some v => Some (qvec v) | None => None end) disp (gd_cov ge) (gd_cov gx)) w.
+
+(* under-determined full-row-rank systems: the likelihood is maximal exactly on { x : A x = b } *)
+Definition check_ml_under (A : list (list Q)) (b x : list Q) : bool := qcl_close tol4 (qmatvec (qmat A) (qvec x)) (qvec b).
